@@ -145,7 +145,13 @@ class UDSClient:
                 resp = parse_pdu(raw_resp, request)
                 n_timeout = 0  # Only raise errors for consecutive timeouts
                 n_pending += 1
-                if n_pending >= MAX_N_PENDING:
+                # Only give up while the ECU is still sending ResponsePending;
+                # a final reply which arrives as the last tolerated message is returned.
+                if (
+                    n_pending >= MAX_N_PENDING
+                    and isinstance(resp, service.NegativeResponse)
+                    and resp.response_code == UDSErrorCodes.requestCorrectlyReceivedResponsePending
+                ):
                     raise RuntimeError("ECU appears to be stuck in ResponsePending loop")
             else:
                 # We reach this code here once all response pending
